@@ -137,6 +137,10 @@ Definition exec (P : progs) (i c : nat) (s : state) : option state :=
             Some (mkS (q s) (closed s) (owner s) (cap s)
                       (upd (thr s) i (set_cont t ((match q s with [] => el | _ :: _ => th end) ++ k)))
                       (pushed s) (delivered s) (race s || unsafe) (fatal s))
+        | SIfLen n th el =>
+            Some (mkS (q s) (closed s) (owner s) (cap s)
+                      (upd (thr s) i (set_cont t ((if Nat.eqb (length (q s)) n then th else el) ++ k)))
+                      (pushed s) (delivered s) (race s || unsafe) (fatal s))
         | SPushBack =>
             Some (mkS (q s ++ [arg t]) (closed s) (owner s) (cap s) (upd (thr s) i (set_cont t k))
                       (pushed s ++ [arg t]) (delivered s) (race s || unsafe) (fatal s))
